@@ -17,9 +17,9 @@ import os
 from lib import core, sysrun
 
 ID = 'C03'
-COQ_CONE = ['Properties/C03.v']
+COQ_CONE = ['Properties/C03.v', 'Properties/Pipeline.v']
 EXTRACT = 'Extract/C03Extract.v'
-DRIVER = ['ocaml/Flow_driver.ml', 'ocaml/Flow_main.ml']
+DRIVER = ['ocaml/Pipeline_driver.ml', 'ocaml/Flow_driver.ml', 'ocaml/Flow_main.ml']
 MONITORS = ["mon_c03"]
 ASSUMPTIONS = [
     'which pull requests a queue evaluation selects is property C05; which statuses the build gate accepts is C06',
